@@ -20,7 +20,8 @@ RULE = (
     "excepted); every runtime field (values, iteration, stored policy, gain, value history and index, period) equals "
     "the snapshot of that step bit for bit; latest = largest committed step; overrides are reflected in the solver's "
     "attributes; later saves land in the new directory and the original directory is byte-identical (content hash of "
-    "every file) after the restore. A fifth of the cases exercise the error paths: no config.yaml -> "
+    "every file) after the restore. In a third of the cases the directory is first MOVED, or COPIED and the copy made older than "
+    "the original ('from the directory alone'). A fifth of the cases exercise the error paths: no config.yaml -> "
     "FileNotFoundError; no completed step -> ValueError 'No checkpoints found', for both routes. Non-trivial = "
     "restored step >= 2 or at least one override; distinct = case digest."
 )
@@ -52,7 +53,9 @@ def strategy(tier, shard):
                     async_=draw(st.booleans()), calls=[draw(st.integers(1, 7))] + ([draw(st.integers(1, 5))] if draw(st.booleans()) else []),
                     step_choice=draw(st.sampled_from(["latest", "latest", 0, 1, 2])), route=route, overrides=ov,
                     later=draw(st.sampled_from([0, 0, 2, 3])),
-                    errpath=draw(st.sampled_from([None, None, None, None, "no_config", "no_steps"])))
+                    errpath=draw(st.sampled_from([None, None, None, None, "no_config", "no_steps"])),
+                    # the directory may have been copied (and the original has moved on) or moved before it is restored
+                    relocate=draw(st.sampled_from([None, None, None, "move", "copy-diverged"])))
 
     return cases()
 
@@ -102,7 +105,20 @@ def judge(case):
                     return verdict_fail(f"no-completed-step-not-documented-error:{route}",
                                         f"{route} on a directory without completed steps: {e}", classes=classes)
             return verdict_ok(nontrivial=True, classes=classes, sample=dict(errpath=err, kind=kind))
-        # ---- normal restore
+        # ---- normal restore (possibly from a copied / moved directory: "from the directory alone")
+        src_dir = dirA
+        reloc = case.get("relocate")
+        if reloc:
+            classes.append(f"relocated-{reloc}")
+            shutil.rmtree(dirC)
+            shutil.copytree(dirA, dirC)
+            if reloc == "move":
+                shutil.rmtree(dirA)
+            elif len(steps) >= 2:
+                shutil.rmtree(dirC / str(max(steps)))  # the copy is older than the original, which has moved on
+                steps = steps[:-1]
+            src_dir = dirC
+            hashA = ckpt.tree_hash(dirC)
         sc = case["step_choice"]
         step = None if sc == "latest" else steps[int(sc) % len(steps)]
         expect_step = max(steps) if step is None else step
@@ -111,7 +127,9 @@ def judge(case):
         if route == "restore" and not has_cfg:
             return verdict_fail("config-file-missing", f"{kind}/{problem['kind']}: problem has a configuration but config.yaml was not written",
                                 classes=classes)
-        later = [int(case["later"])] if case["later"] else []
+        later = [int(case["later"])] if case["later"] and not reloc else []
+        if reloc:
+            ov = dict(ov, new_dir=False)
         if route == "restore":
             o = {}
             if ov["new_dir"]:
@@ -122,14 +140,14 @@ def judge(case):
                 o["max_checkpoints"] = ov["keep"]
             if ov["async_"] is not None:
                 o["enable_async_checkpointing"] = ov["async_"]
-            scen = dict(solver=dict(kind=kind, params={}), restore=dict(route="restore", dir=str(dirA), step=step, overrides=o), calls=later)
+            scen = dict(solver=dict(kind=kind, params={}), restore=dict(route="restore", dir=str(src_dir), step=step, overrides=o), calls=later)
         else:
-            target = dirB if ov["new_dir"] else dirA
+            target = dirB if (ov["new_dir"] or reloc) else dirA
             f2 = ov["frequency"] if ov["frequency"] is not None else case["freq"]
             k2 = ov["keep"] if ov["keep"] is not None else case["keep"]
             a2 = ov["async_"] if ov["async_"] is not None else case["async_"]
             scen = dict(problem=problem, solver=ckpt.with_ckpt(sdesc, target, f2, k2, a2),
-                        restore=dict(route="load", dir=str(dirA), step=step), calls=later)
+                        restore=dict(route="load", dir=str(src_dir), step=step), calls=later)
             o = dict(new_checkpoint_dir=str(dirB) if ov["new_dir"] else None, checkpoint_frequency=f2, max_checkpoints=k2,
                      enable_async_checkpointing=a2)
         if later and not ov["new_dir"] and step is not None and step < max(steps):
@@ -173,9 +191,12 @@ def judge(case):
             if at[f] != v:
                 return verdict_fail(f"override-not-applied:{f}", f"expected {f}={v}, solver has {at[f]}", classes=classes)
         exp_dir = str(dirB) if ov["new_dir"] else str(dirA)
-        if at["checkpoint_dir"] is not None and at["checkpoint_dir"].rstrip("/") != exp_dir.rstrip("/"):
+        if reloc:
+            if ckpt.tree_hash(dirC) != hashA:
+                return verdict_fail("original-directory-altered", f"restoring the relocated directory ({reloc}) changed its files", classes=classes)
+        elif at["checkpoint_dir"] is not None and at["checkpoint_dir"].rstrip("/") != exp_dir.rstrip("/"):
             return verdict_fail("override-not-applied:directory", f"expected {exp_dir}, solver saves to {at['checkpoint_dir']}", classes=classes)
-        if ov["new_dir"]:
+        if ov["new_dir"] and not reloc:
             # with a new directory for later saves the original directory must stay byte-identical (without one the
             # original directory is the active directory: config.yaml is legitimately rewritten there)
             if ckpt.tree_hash(dirA) != hashA:
